@@ -285,18 +285,6 @@ func goSysnum(path string) (map[string]uint64, string, error) {
 	return res, note, nil
 }
 
-func leanIdent(s string) string {
-	var b strings.Builder
-	for _, r := range s {
-		if r >= 'a' && r <= 'z' || r >= 'A' && r <= 'Z' || r >= '0' && r <= '9' {
-			b.WriteRune(r)
-		} else {
-			b.WriteByte('_')
-		}
-	}
-	return b.String()
-}
-
 // genTableCodes emits Gen/TableCodes.lean: the five tables with Nat-coded names, in source order.
 func genTableCodes(t *target, facts map[string]interface{}) error {
 	tables, _ := facts["tables"].(map[string][]tableEntry)
@@ -481,7 +469,7 @@ func genOracle(t *target, facts map[string]interface{}) error {
 		"normalisations are documented in oracle.go. -/\n\n" +
 		"namespace Gen.Oracle\n\nstructure Source where\n  id : String\n  table : String\n  available : Bool\n  entries : List (Nat × Nat)\n\n")
 	for _, s := range sources {
-		id := "src_" + leanIdent(s.ID)
+		id := "src_" + leanTargetIdent(s.ID)
 		fmt.Fprintf(&b, "/-- %s (%s) -/\ndef %s : List (Nat × Nat) := [\n", s.ID, s.Path, id)
 		byCode := append([]oracleEntry(nil), s.Entries...)
 		sort.SliceStable(byCode, func(i, j int) bool { return nameCode(byCode[i].Name).Cmp(nameCode(byCode[j].Name)) < 0 })
@@ -500,7 +488,7 @@ func genOracle(t *target, facts map[string]interface{}) error {
 		if i == len(sources)-1 {
 			sep = ""
 		}
-		fmt.Fprintf(&b, "  { id := %s, table := %s, available := %v, entries := src_%s }%s\n", leanString(s.ID), leanString(s.Table), s.Available, leanIdent(s.ID), sep)
+		fmt.Fprintf(&b, "  { id := %s, table := %s, available := %v, entries := src_%s }%s\n", leanString(s.ID), leanString(s.Table), s.Available, leanTargetIdent(s.ID), sep)
 	}
 	b.WriteString("]\n\n")
 	fmt.Fprintf(&b, "/-- `AUDIT_ARCH_*` of linux/audit.h as evaluated by the C compiler -/\ndef auditAvailable : Bool := %v\ndef auditArch : List (String × Nat) := [\n", auditAvail)
